@@ -58,7 +58,7 @@ func parseEntry(t *Toks, shared map[string][]string) *gldap.Entry {
 		if vals == nil {
 			vals = []string{}
 		}
-		key := name + "\x00" + strings.Join(vals, "\x00")
+		key := fmt.Sprintf("%s\x00%d\x00%s", name, len(vals), strings.Join(vals, "\x00"))
 		if v, ok := shared[key]; ok && len(vals) > 0 {
 			vals = v
 		} else if shared != nil {
